@@ -50,7 +50,7 @@ CHECKS = {
          "Existing variable ids far below u64::MAX.",
          "DESIGN.md §5 C12"),
  "C13": ("proptest-driven generation of small integer boxes x rational-coefficient inequalities x limits; oracle = brute force over every lattice point and every slack value in exact rational arithmetic",
-         "Generated-input search; per case the feasible sets before/after are compared on the complete lattice (<=343 points) and all slack values (affine-interval argument above 4096 values); outcome-specific checks for converted / relaxed / infeasible / rejected; the introduced variable is identified by its fresh id, its range read from its bound.",
+         "Generated-input search; per case the feasible sets before/after are compared on the complete lattice (<=343 points) and all slack values (affine-interval argument above 4096 values); outcome-specific checks for converted / relaxed / infeasible / rejected; the introduced variable is identified by its fresh id, its range read from its bound; fixed sweep over variables bounded on one side only (always-holds => relaxed, no finite slack range => error without modification).",
          "Tolerance 1e-6 as in the SDK's feasibility test, intended values separated by >=1e-3; converse directions only for (normalised) linear functions.",
          "DESIGN.md §5 C13"),
  "C15": ("proptest-driven generation of instances of both senses, evaluated sample sets and hand-built SampleSet messages in current and 1.6 encodings (through protobuf bytes); oracle = exact negation / brute-force arg-best",
